@@ -14,8 +14,12 @@ from py2lean import FnTranslator, Refuse, V, S, lean_val
 
 RC = '{R : Type} [Add R] [Sub R] [Mul R] [Div R] [Neg R]'
 
+class _L(str):
+    """a symbolic coefficient list (polynomial of any order)"""
+
 def _rx(e, env):
     if isinstance(e, ast.Constant) and e.value == 1: return env['__one__']
+    if isinstance(e, ast.Constant) and e.value == 0 and '__zero__' in env: return env['__zero__']
     if isinstance(e, ast.Name):
         if e.id not in env: raise Refuse(f'unknown name {e.id}')
         return env[e.id]
@@ -47,6 +51,23 @@ def _rx(e, env):
         if f == 'np.ones' and len(e.args) == 1: return env['__one__']          # a column of ones
         if f.endswith('.ravel') and not e.args: return _rx(e.func.value, env)    # flattening keeps the sample
         if f == 'np.sqrt' and len(e.args) == 1 and 'sqrt' in env: return f'(sqrt {_rx(e.args[0], env)})'
+        if f == 'np.polyder' and len(e.args) == 1 and not e.keywords:
+            p_ = _rx(e.args[0], env)
+            if not isinstance(p_, _L): raise Refuse('polyder of something that is not a coefficient list')
+            return _L(f'(polyder {p_})')
+        if f == 'self._arc_len' and len(e.args) == 3 and not e.keywords and 'arcLen' in env:
+            if ast.unparse(e.args[0]) != env['arcLen']: raise Refuse('arc length of a different integrand: ' + ast.unparse(e.args[0]))
+            return f'(arcLen integrand {_rx(e.args[1], env)} {_rx(e.args[2], env)})'
+        if f in env.get('__inline__', {}) and len(e.args) == 1 and not e.keywords:
+            fn = env['__inline__'][f]
+            body = [n for n in fn.body if not (isinstance(n, ast.Expr) and isinstance(n.value, ast.Constant))]
+            if len(body) != 1 or not isinstance(body[0], ast.Return) or [a.arg for a in fn.args.args][0] != 'self' or len(fn.args.args) != 2:
+                raise Refuse(f'{f}: not a one-argument single-return method')
+            return _rx(body[0].value, {**env, fn.args.args[1].arg: _rx(e.args[0], env)})
+        if f == 'np.polyval' and len(e.args) == 2 and isinstance(_rx(e.args[0], env), _L):
+            x_ = _rx(e.args[1], env)
+            if isinstance(x_, list): raise Refuse('polyval at a vector')
+            return f'(polyval {_rx(e.args[0], env)} {x_})'
         if f == 'np.polyval' and len(e.args) == 2:
             p_ = _rx(e.args[0], env); x_ = _rx(e.args[1], env)
             if not (isinstance(p_, list) and len(p_) == 2) or isinstance(x_, list): raise Refuse('polyval: only first-order polynomials')
@@ -226,6 +247,38 @@ def generate(repo):
                f'and `_trace` (line {dtra.lineno}); `sqrt` = `np.sqrt` -/\n'
                f'def dispersiveShift1 {RC} (sqrt : R → R) (one trace_0 trace_1 dispersion_0 dispersion_1 wavelength xs ys : R) : R × R :=\n'
                f'  let dist := {dist}\n  let x := {tenv["x"]}\n  let y := {tenv["y"]}\n  ((x + xs), (y + ys))\n')
+    # ---------------- higher-order branches: the residuals the two scipy.optimize.leastsq calls drive to zero, and the shared tail
+    def single_return(fn, what):
+        body = [n for n in fn.body if not (isinstance(n, ast.Expr) and isinstance(n.value, ast.Constant))]
+        if len(body) != 1 or not isinstance(body[0], ast.Return): raise Refuse(f'{what}: body is not a single return')
+        return body[0].value
+    if len(b1.orelse) != 1 or ast.unparse(b1.orelse[0]) != 'return scipy.optimize.leastsq(self._dist_cost_func, x0=0, args=(wavelength,))[0]':
+        raise Refuse('_dispersion: higher-order branch is no longer leastsq(self._dist_cost_func, x0=0, args=(wavelength,))[0]')
+    if len(b2.orelse) != 1 or ast.unparse(b2.orelse[0]) != 'x = scipy.optimize.leastsq(self._trace_cost_func, x0=0, args=(dist,))[0]':
+        raise Refuse('_trace: higher-order branch is no longer x = leastsq(self._trace_cost_func, x0=0, args=(dist,))[0]')
+    dcf, tcf, tdf = (_method(mod, 'DispersiveTilt', n_) for n_ in ('_dist_cost_func', '_trace_cost_func', '_trace_dist_func'))
+    dwf = _method(mod, 'DispersiveTilt', '_dispersion_wavelength_func')
+    al = _method(mod, 'DispersiveTilt', '_arc_len')
+    if ast.unparse(single_return(al, '_arc_len')) != 'scipy.integrate.quad(dist_func, a, b)[0]' or [a.arg for a in al.args.args] != ['dist_func', 'a', 'b']:
+        raise Refuse('_arc_len is no longer scipy.integrate.quad(dist_func, a, b)[0]')
+    if [a.arg for a in dcf.args.args] != ['self', 'x', 'wavelength'] or [a.arg for a in tcf.args.args] != ['self', 'x', 'dist'] or [a.arg for a in tdf.args.args] != ['self', 'x']:
+        raise Refuse('DispersiveTilt cost functions: parameters changed')
+    henv = {'__one__': 'one', '__zero__': 'zero', 'sqrt': True, 'x': 'x', 'wavelength': 'wavelength', 'dist': 'dist',
+            'self.dispersion': _L('dispersion'), 'self.trace': _L('trace'), '__inline__': {'self._dispersion_wavelength_func': dwf}}
+    PV = '(polyval : List R → R → R)'
+    out.append(f'/-- translated from `plane.py:DispersiveTilt._dist_cost_func` (line {dcf.lineno}, with `_dispersion_wavelength_func` inlined): the residual whose\n'
+               f'root `scipy.optimize.leastsq(…, x0=0)` returns as `dist` for a dispersion polynomial of order > 1 -/\n'
+               f'def dispDistResidual {RC} {PV} (dispersion : List R) (x wavelength : R) : R :=\n  {_rx(single_return(dcf, "_dist_cost_func"), henv)}\n')
+    out.append(f'/-- translated from `plane.py:DispersiveTilt._trace_dist_func` (line {tdf.lineno}): the arc-length integrand of the trace polynomial -/\n'
+               f'def traceDistIntegrand {RC} (sqrt : R → R) {PV} (polyder : List R → List R) (one : R) (trace : List R) (x : R) : R :=\n'
+               f'  {_rx(single_return(tdf, "_trace_dist_func"), henv)}\n')
+    out.append(f'/-- translated from `plane.py:DispersiveTilt._trace_cost_func` (line {tcf.lineno}): the residual whose root `leastsq(…, x0=0)` returns as `x` for a\n'
+               f'trace polynomial of order > 1; `arcLen f a b` = `scipy.integrate.quad(f, a, b)[0]`, `integrand` = `_trace_dist_func` -/\n'
+               f'def traceDistResidual {RC} (arcLen : (R → R) → R → R → R) (integrand : R → R) (zero x dist : R) : R :=\n'
+               f'  {_rx(single_return(tcf, "_trace_cost_func"), {**henv, "arcLen": "self._trace_dist_func"})}\n')
+    out.append(f'/-- translated from `plane.py:DispersiveTilt._trace` (line {rest[0].lineno}) and `shift`: the tail shared by all orders — `y = np.polyval(trace, x)`,\n'
+               f'then the incoming shift is added -/\n'
+               f'def dispersiveTail {RC} {PV} (trace : List R) (x xs ys : R) : R × R :=\n  let y := {_rx(rest[0].value, henv)}\n  ((x + xs), (y + ys))\n')
     # ---------------- how tilt lists are built: Wavefront.__init__, Field.__mul__, TiltInterface.multiply (list expressions)
     wmod = ast.parse(open(os.path.join(repo, 'lentil/wavefront.py')).read())
     def lx(e, env):
